@@ -78,6 +78,10 @@ def ref_fprof_fn(p):
     if k == 'voigt':
         s = p['g_width'] / FW
         gam = p['l_width'] / 2
+        if s == 0:            # the limits of the convolution: a pure Lorentzian / a pure Gaussian, both of unit peak
+            return lambda f, c: 1.0 / (1.0 + ((f - c) / gam) ** 2)
+        if gam == 0:
+            return lambda f, c: np.exp(-(f - c) ** 2 / (2 * s * s))
         v0 = np.real(wofz((1j * gam) / s / np.sqrt(2)))
         return lambda f, c: np.real(wofz(((f - c) + 1j * gam) / s / np.sqrt(2))) / v0
     if k == 'sinc2':
